@@ -97,13 +97,16 @@ def gen_resp(rng, method, bidx, own_uris, all_uris):
     fault = rng.weighted([("good", 55), ("raise", 14), ("none", 6), ("wrong", 5), ("shape", 8), ("content", 12)])
     if fault == "raise":
         k = rng.weighted([("exception", 6), ("validation", 2), ("type", 2), ("lookup", 2), ("assertion", 2),
-                          ("notimpl", 2), ("base", 0.6)])
+                          ("notimpl", 2), ("base", 0.6)] + ([("lookup", 4)] if method == "search" else [])
+                         + ([("assertion", 4)] if method == "save" else []))
         return ["raise", k]
     if fault == "none":
         return ["none"]
     if fault == "wrong":
         return ["wrong"]
     if method in ("lookup_many", "get_images"):
+        if fault == "good" and rng.random() < 0.25:  # the dict-valued answers are where most of C09 lives
+            fault = "content"
         if fault == "shape":
             return rng.choice([["list", gen_entries(rng, cls, base)], ["val", cls, base], ["bool", True],
                                ["int", 3], ["map", []]])
